@@ -16,26 +16,96 @@ func init() { Registry["C06"] = C06 }
 
 // feeFunc finds, in x/<m>/ante, the function that accumulates the expected fee (it reaches the
 // keeper's fee getters and contains the type switch over the module's messages).
-func feeFunc(c *Ctx, m string) *ssa.Function {
-	var best *ssa.Function
+// accumulatingAdds: the Coin.Add calls of f whose result is stored back into the local the receiver was
+// loaded from (expected = expected.Add(x)).
+func accumulatingAdds(c *Ctx, f *ssa.Function) []*ssa.Call {
+	var out []*ssa.Call
+	for _, b := range f.Blocks {
+		for _, in := range b.Instrs {
+			call, ok := in.(*ssa.Call)
+			if !ok {
+				continue
+			}
+			e := c.W.ExprOf(call)
+			if !calleeIs(e, "types.Coin).Add") || len(e.Args) != 2 {
+				continue
+			}
+			switch recv := call.Common().Args[0].(type) {
+			case *ssa.UnOp:
+				// the accumulator lives in memory: loaded from, and stored back into, the same local
+				acc, ok := recv.X.(*ssa.Alloc)
+				if !ok {
+					continue
+				}
+				if refs := call.Referrers(); refs != nil {
+					for _, rf := range *refs {
+						if st, ok := rf.(*ssa.Store); ok && st.Addr == ssa.Value(acc) {
+							out = append(out, call)
+							break
+						}
+					}
+				}
+			case *ssa.Phi:
+				// the accumulator is a loop-carried register: the sum flows back into the phi it was read from
+				if flowsInto(call, recv, map[ssa.Value]bool{}) {
+					out = append(out, call)
+				}
+			}
+		}
+	}
+	return out
+}
+
+// flowsInto: v reaches phi through phi edges only.
+func flowsInto(v ssa.Value, phi *ssa.Phi, seen map[ssa.Value]bool) bool {
+	refs := v.Referrers()
+	if refs == nil || seen[v] {
+		return false
+	}
+	seen[v] = true
+	for _, r := range *refs {
+		if p, ok := r.(*ssa.Phi); ok {
+			if p == phi || flowsInto(p, phi, seen) {
+				return true
+			}
+		}
+	}
+	return false
+}
+
+// feeFunc finds, by structure, the two functions of x/<m>/ante the fee rules are about: the one that
+// accumulates the expected fee (most accumulating additions under the module's message types) and the
+// one that decides admission (it takes the fee-denomination amount of tx.GetFee()). They are the same
+// function unless the summation was extracted into a helper.
+func feeFunc(c *Ctx, m string) (adder, admit *ssa.Function) {
+	best := 0
 	for _, f := range c.W.PkgFuncs("x/" + m + "/ante") {
 		if f.Parent() != nil || c.W.IsGenerated(f) {
 			continue
 		}
-		if len(typeSwitchCases(c, f)) < 2 {
-			continue
-		}
-		reaches := false
-		for g := range c.W.Reachable([]*ssa.Function{f}) {
-			if strings.Contains(fn(g), "FeeAsCoin") {
-				reaches = true
-			}
-		}
-		if reaches {
-			best = f
+		if n := len(accumulatingAdds(c, f)); n > best && len(typeSwitchCases(c, f)) >= 2 {
+			best, adder = n, f
 		}
 	}
-	return best
+	for _, f := range c.W.PkgFuncs("x/" + m + "/ante") {
+		if f.Parent() != nil || c.W.IsGenerated(f) || adder == nil {
+			continue
+		}
+		if _, reaches := c.W.Reachable([]*ssa.Function{f})[adder]; !reaches {
+			continue
+		}
+		for _, b := range f.Blocks {
+			for _, in := range b.Instrs {
+				if call, ok := in.(*ssa.Call); ok {
+					e := c.W.ExprOf(call)
+					if calleeIs(e, "types.Coins).AmountOf") && len(e.Args) == 2 && calleeIs(e.Args[0], "FeeTx.GetFee") {
+						admit = f
+					}
+				}
+			}
+		}
+	}
+	return
 }
 
 func roleOfMsg(c *Ctx, m, typ string) string {
@@ -82,12 +152,12 @@ func C06(c *Ctx) {
 	}
 	r.Floor("fee-bearing request types (both modules)", len(all), 6)
 	for _, m := range []string{"wrkchain", "beacon"} {
-		f := feeFunc(c, m)
-		if f == nil {
-			r.Undecided("A7.fee-table", m, "", "fee calculator found in x/"+m+"/ante", "not found")
+		adder, f := feeFunc(c, m)
+		if adder == nil || f == nil {
+			r.Undecided("A7.fee-table", m, "", "fee calculator found in x/"+m+"/ante (a function accumulating the expected fee, and one comparing it with tx.GetFee().AmountOf(denom))", fmt.Sprintf("accumulating function: %v, admitting function: %v", adder, f))
 			continue
 		}
-		feeTable(c, m, f)
+		feeTable(c, m, adder)
 		feeExactness(c, m, f)
 		decoratorChecks(c, m, f)
 		// fee domain
@@ -109,6 +179,24 @@ func C06(c *Ctx) {
 	}
 	keeperWiring(c)
 	nestedExecution(c)
+	// the decorators act only on transactions their detector recognises: it must look at every message
+	nd := 0
+	for _, m := range []string{"wrkchain", "beacon"} {
+		for _, f := range w.Funcs {
+			if w.IsGenerated(f) || ir.IsFixture(f) || f.Parent() != nil || ir.FnPkg(f) == nil {
+				continue
+			}
+			rel := ir.RelPkg(ir.FnPkg(f).Path())
+			if rel != "x/"+m+"/exported" && rel != "x/"+m+"/ante" {
+				continue
+			}
+			if f.Signature.Results().Len() == 1 && f.Signature.Results().At(0).Type().String() == "bool" && len(typeSwitchCases(c, f)) > 0 {
+				nd++
+				detectorExistential(c, f, m)
+			}
+		}
+	}
+	r.Floor("transaction detectors / message predicates", nd, 2)
 }
 
 func feeTable(c *Ctx, m string, f *ssa.Function) {
@@ -116,36 +204,10 @@ func feeTable(c *Ctx, m string, f *ssa.Function) {
 	want := feeBearingTypes(c, m)
 	seen := map[string]bool{}
 	n := 0
-	for _, b := range f.Blocks {
-		for _, in := range b.Instrs {
-			call, ok := in.(*ssa.Call)
-			if !ok {
-				continue
-			}
+	for _, call := range accumulatingAdds(c, f) {
+		{
+			var in ssa.Instruction = call
 			e := w.ExprOf(call)
-			if !calleeIs(e, "types.Coin).Add") || len(e.Args) != 2 {
-				continue
-			}
-			// accumulator: result stored back into the local it was loaded from
-			u, ok := call.Common().Args[0].(*ssa.UnOp)
-			if !ok {
-				continue
-			}
-			acc, ok := u.X.(*ssa.Alloc)
-			if !ok {
-				continue
-			}
-			stored := false
-			if refs := call.Referrers(); refs != nil {
-				for _, rf := range *refs {
-					if st, ok := rf.(*ssa.Store); ok && st.Addr == ssa.Value(acc) {
-						stored = true
-					}
-				}
-			}
-			if !stored {
-				continue
-			}
 			n++
 			// which message type guards this addition?
 			var guardT string
@@ -167,6 +229,14 @@ func feeTable(c *Ctx, m string, f *ssa.Function) {
 			seen[guardT] = true
 			role := roleOfMsg(c, m, guardT)
 			x := e.Args[1]
+			// the addend may be computed by a small helper of the ante package (per-slot fee x slots): look inside
+			for i := 0; i < 3 && x.Op == "call" && x.Callee != nil && ir.FnPkg(x.Callee) != nil && ir.RelPkg(ir.FnPkg(x.Callee).Path()) == "x/"+m+"/ante"; i++ {
+				in2 := w.Inline(x)
+				if in2 == nil {
+					break
+				}
+				x = in2
+			}
 			ok2 := false
 			wantDesc := ""
 			switch role {
@@ -207,6 +277,16 @@ func feeTable(c *Ctx, m string, f *ssa.Function) {
 
 // accumulatedAmount: e is <accumulator>.Amount where the accumulator is the local the fee additions are stored into.
 func isAmountOfFee(c *Ctx, f *ssa.Function, e *ir.Expr) bool {
+	// the sum may be returned by a helper (possibly as one of several results): <helper(...)#i>.Amount
+	if e.Op == "field" && e.Name == "Amount" && len(e.Args) == 1 {
+		x := e.Args[0]
+		if x.Op == "res" && len(x.Args) == 1 {
+			x = x.Args[0]
+		}
+		if x.Op == "call" && x.Callee != nil && len(accumulatingAdds(c, x.Callee)) > 0 {
+			return true
+		}
+	}
 	adds := 0
 	for _, a := range e.Alts() {
 		if !(a.Op == "field" && a.Name == "Amount" && len(a.Args) == 1) {
@@ -333,7 +413,7 @@ func decoratorChecks(c *Ctx, m string, feeF *ssa.Function) {
 	for i, nx := range nexts {
 		key := fmt.Sprintf("%s|next%d", m, i)
 		// a next() call that is not guarded by "is a module tx" must be guarded by "is not"
-		isMod := w.Guarded(dec, nx, moduleTx, 3)
+		isMod := w.Guarded(dec, nx, moduleTx, 6)
 		if !isMod {
 			notMod := w.Guarded(dec, nx, func(p ir.Pred) bool {
 				q := p
@@ -388,7 +468,7 @@ func decoratorChecks(c *Ctx, m string, feeF *ssa.Function) {
 			return liquid && locked && feeD && spend
 		}
 		for i, ret := range w.SuccessReturns(g) {
-			r.Require(w.Guarded(g, ret, hasNeg, 0), "A2.affordability", fmt.Sprintf("%s|%s|return%d", m, fn(g), i), pos(c, ret), "the payer is accepted only when spendable + locked eFUND covers the fee-denomination amount of the fee", "the nil return is reachable without that check")
+			r.Require(w.Guarded(g, ret, hasNeg, 6), "A2.affordability", fmt.Sprintf("%s|%s|return%d", m, fn(g), i), pos(c, ret), "the payer is accepted only when spendable + locked eFUND covers the fee-denomination amount of the fee", "the nil return is reachable without that check")
 		}
 	}
 }
@@ -489,9 +569,9 @@ func keeperWiring(c *Ctx) {
 		})
 	}
 	// constructor calls in NewAnteHandler: parameter interface module vs options field module
-	fd := w.FuncDecl(ante, "NewAnteHandler")
+	// (anywhere in the application's ante package: NewAnteHandler itself or a function the list was moved into)
 	n := 0
-	if fd != nil {
+	for _, fd := range ante.Syntax {
 		ast.Inspect(fd, func(nd ast.Node) bool {
 			call, ok := nd.(*ast.CallExpr)
 			if !ok {
